@@ -225,6 +225,7 @@ def run(c):
                   "harness/semgen.py renders one expression AST to SQL text and to Gallina"]
     c.assumptions += ["measure values are BIGINT / VARCHAR (exact arithmetic); avg compared numerically with DuckDB's double"]
     lib.regen_small(c, "_build_measure_aggregation_sql")
+    lib.regen_cte(c)
     c.build_props()
     n = 400 if c.tier == "quick" else 6000
     cases = [gen_case(c.rng) for _ in range(n)]
